@@ -10,13 +10,14 @@ META = {
 }
 MANIFEST_ENTRY = {
     "level_text": "Deductive proof of the per-class notional/coupon/carry clauses and of update's fixed-income clauses for all inputs.",
-    "level_note": "Reals not floats; StrategyBase.rebalance (notional amount, transact for fixed-income children) and algos.Rebalance (base from temp['notional_value']) are under contract; CouponPayingSecurity.setup's lookups of the coupon / holding-cost tables, SetNotional and the renormalised result are covered by the bounded stand-in only.",
+    "level_note": "Reals not floats; StrategyBase.rebalance (notional amount, transact for fixed-income children) and algos.Rebalance (base from temp['notional_value']) are under contract; SetNotional is proved to return True exactly when its series has a value dated now (and then to set temp['notional_value'] from that row) and False otherwise; CouponPayingSecurity.setup's lookups of the coupon / holding-cost tables and the renormalised result are covered by the bounded stand-in only.",
     "technique": "contract-based deductive verification: VCs from the real AST (pyvc) discharged by z3/cvc5; loop invariants with ghost sums; lemmas over contract clauses",
 }
 
 
 def tasks(tier, seed):
     return [
+        func("bt.algos.SetNotional.__call__"),
         func("bt.core.StrategyBase.transact"),
         func("bt.core.StrategyBase.rebalance"),
         func("bt.algos.Rebalance.__call__"),
